@@ -1327,3 +1327,417 @@ pub fn run_term_program(p: &TermProgram) -> TermOutcome {
     let _ = std::fs::remove_file(&path);
     TermOutcome { calls: calls.load(Ordering::Relaxed), flush_errors: flush_errors.load(Ordering::Relaxed), out_of_space: oos.load(Ordering::Relaxed), threads_inside: max_inside.load(Ordering::Relaxed), faults_injected: faults, panicked }
 }
+
+// ------------------------------------------------------------------------------------------
+// C13 (concurrent part): admitted writes never push usage above the limit
+// ------------------------------------------------------------------------------------------
+
+#[derive(Clone, Debug, Serialize, Deserialize, PartialEq, Eq)]
+pub struct MemProgram {
+    pub limit_kb: u16,
+    pub threads: u8,
+    /// per thread ops: (key scaled, size class, kind 0 insert / 1 delete / 2 cas-grow / 3 incr / 4 insert_bytes)
+    pub ops: Vec<Vec<(u8, u16, u8)>>,
+    pub shared_keys: u8,
+    pub schedule: Schedule,
+}
+
+pub fn mem_program_strategy() -> BoxedStrategy<MemProgram> {
+    (8u16..200, 2u8..9, 0u8..6, sched::schedule_strategy())
+        .prop_flat_map(|(limit_kb, threads, shared_keys, schedule)| {
+            let op = (any::<u8>(), prop_oneof![3 => 10u16..400, 2 => 400u16..6000, 1 => 6000u16..40000], 0u8..5);
+            (Just(limit_kb), Just(threads), proptest::collection::vec(proptest::collection::vec(op, 20..150), threads as usize), Just(shared_keys), Just(schedule))
+        })
+        .prop_map(|(limit_kb, threads, ops, shared_keys, schedule)| MemProgram { limit_kb, threads, ops, shared_keys, schedule })
+        .boxed()
+}
+
+pub struct MemOutcome {
+    pub failure: Option<(String, String)>,
+    pub samples: u64,
+    pub refused: u64,
+    pub admitted: u64,
+    pub peak: usize,
+    pub near_limit_admissions: u64,
+}
+
+pub fn run_mem_program(p: &MemProgram) -> MemOutcome {
+    feoxdb::verif::set_thread_clock(None);
+    let limit = p.limit_kb as usize * 1024;
+    let cfg = Config { persistent: false, version: 3, cache: false, ttl: false, dev: DevSize::Normal, max_memory: Some(limit), plain_io: true, legacy_plain_meta: false, visible_cpus: 0 };
+    let store = match seq::open_store(&cfg, None) {
+        Ok(s) => Arc::new(s),
+        Err(e) => return MemOutcome { failure: Some(("open-failed".into(), format!("{e:?}"))), samples: 0, refused: 0, admitted: 0, peak: 0, near_limit_admissions: 0 },
+    };
+    let ctl = Controller::new(p.schedule.clone());
+    sched::install(Some(ctl.clone()));
+    let stop = Arc::new(AtomicBool::new(false));
+    let peak = Arc::new(AtomicU64::new(0));
+    let samples = Arc::new(AtomicU64::new(0));
+    let over = Arc::new(std::sync::Mutex::new(None::<usize>));
+    let monitors: Vec<_> = (0..2)
+        .map(|_| {
+            let (store, stop, peak, samples, over) = (store.clone(), stop.clone(), peak.clone(), samples.clone(), over.clone());
+            std::thread::spawn(move || {
+                while !stop.load(Ordering::Acquire) {
+                    let u = store.memory_usage();
+                    samples.fetch_add(1, Ordering::Relaxed);
+                    peak.fetch_max(u as u64, Ordering::Relaxed);
+                    if u > limit {
+                        over.lock().unwrap().get_or_insert(u);
+                    }
+                }
+            })
+        })
+        .collect();
+    let barrier = Arc::new(Barrier::new(p.threads as usize));
+    let refused = Arc::new(AtomicU64::new(0));
+    let admitted = Arc::new(AtomicU64::new(0));
+    let near = Arc::new(AtomicU64::new(0));
+    let rec = seq::rec_overhead();
+    let mut hs = Vec::new();
+    for (t, ops) in p.ops.iter().enumerate() {
+        let (store, barrier, refused, admitted, near) = (store.clone(), barrier.clone(), refused.clone(), admitted.clone(), near.clone());
+        let ops = ops.clone();
+        let shared = p.shared_keys as usize;
+        hs.push(std::thread::spawn(move || {
+            // owned keys: contents known exactly to the owner
+            let mut owned: std::collections::HashMap<Vec<u8>, Vec<u8>> = std::collections::HashMap::new();
+            let mut err: Option<(String, String)> = None;
+            barrier.wait();
+            for (i, (kx, size, kind)) in ops.iter().enumerate() {
+                let _g = env::watch("mem call");
+                let use_shared = shared > 0 && kx % 3 == 0;
+                let key = if use_shared { format!("shared-{}", *kx as usize % shared).into_bytes() } else { format!("own-{t}-{}", kx % 12).into_bytes() };
+                let mut v = vec![0u8; *size as usize];
+                seq::stamp_fill(&mut v, t as u16, i as u32);
+                let before = store.memory_usage();
+                match kind {
+                    1 => {
+                        let r = store.delete(&key);
+                        if !use_shared {
+                            match (r, owned.remove(&key)) {
+                                (Ok(()), Some(_)) | (Err(feoxdb::FeoxError::KeyNotFound), None) => {}
+                                (r, had) => err = err.or(Some(("owned-delete-wrong".into(), format!("delete of an owned key returned {r:?} while the owner knows it was {}", if had.is_some() { "present" } else { "absent" })))),
+                            }
+                        }
+                    }
+                    3 => {
+                        let k2 = format!("ctr-{t}").into_bytes();
+                        let _ = store.atomic_increment(&k2, 1);
+                    }
+                    _ => {
+                        let r = match kind {
+                            4 => store.insert_bytes(&key, bytes::Bytes::from(v.clone())),
+                            2 => match owned.get(&key) {
+                                Some(cur) if !use_shared => store.compare_and_swap(&key, cur, &v).map(|_| false),
+                                _ => store.insert(&key, &v),
+                            },
+                            _ => store.insert(&key, &v),
+                        };
+                        match r {
+                            Ok(_) => {
+                                admitted.fetch_add(1, Ordering::Relaxed);
+                                if before + rec + key.len() + v.len() + 2048 > limit {
+                                    near.fetch_add(1, Ordering::Relaxed);
+                                }
+                                if !use_shared {
+                                    owned.insert(key.clone(), v);
+                                }
+                            }
+                            Err(feoxdb::FeoxError::OutOfMemory) => {
+                                refused.fetch_add(1, Ordering::Relaxed);
+                                // a refused write changes nothing: the owner's key still reads as before
+                                if !use_shared {
+                                    let got = store.get(&key).ok();
+                                    if got.as_ref() != owned.get(&key) {
+                                        err = err.or(Some(("refused-write-changed-contents".into(), format!("a write refused with OutOfMemory changed the owner's key {}: now {:?} bytes, before {:?} bytes", String::from_utf8_lossy(&key), got.map(|g| g.len()), owned.get(&key).map(|g| g.len())))));
+                                    }
+                                }
+                            }
+                            // concurrent automatic writers of a shared key may be refused conservatively (C07)
+                            Err(feoxdb::FeoxError::OlderTimestamp) if use_shared => {}
+                            Err(e) => err = err.or(Some(("unexpected-error".into(), format!("write failed with {e:?}")))),
+                        }
+                    }
+                }
+            }
+            err
+        }));
+    }
+    let mut failure = None;
+    for h in hs {
+        match h.join() {
+            Ok(Some(e)) => {
+                failure.get_or_insert(e);
+            }
+            Ok(None) => {}
+            Err(_) => {
+                failure.get_or_insert(("writer-panicked".into(), "a writer thread panicked".into()));
+            }
+        }
+    }
+    stop.store(true, Ordering::Release);
+    for m in monitors {
+        let _ = m.join();
+    }
+    sched::install(None);
+    if failure.is_none() {
+        if let Some(u) = *over.lock().unwrap() {
+            failure = Some(("usage-above-limit".into(), format!("memory_usage() was sampled at {u} bytes while the configured limit is {limit}")));
+        }
+    }
+    if failure.is_none() {
+        let snap = store.verif_snapshot();
+        let want: usize = snap.records.iter().map(|r| rec + r.key.len() + r.value_len).sum();
+        if store.memory_usage() != want || store.len() != snap.records.len() {
+            failure = Some(("accounting-drift-at-quiescence".into(), format!("after all writers finished memory_usage()={} len()={} but the {} stored records sum to {want}", store.memory_usage(), store.len(), snap.records.len())));
+        }
+    }
+    let out = MemOutcome { failure, samples: samples.load(Ordering::Relaxed), refused: refused.load(Ordering::Relaxed), admitted: admitted.load(Ordering::Relaxed), peak: peak.load(Ordering::Relaxed) as usize, near_limit_admissions: near.load(Ordering::Relaxed) };
+    drop(store);
+    out
+}
+
+// ------------------------------------------------------------------------------------------
+// C11 (concurrent part): the sweeper racing writers that renew / replace / persist keys
+// ------------------------------------------------------------------------------------------
+
+#[derive(Clone, Debug, Serialize, Deserialize, PartialEq, Eq)]
+pub struct SweepProgram {
+    pub persistent: bool,
+    pub sample_size: u8,
+    pub keys_per_writer: u8,
+    pub writers: u8,
+    /// per writer: sequence of (key scaled, action 0 renew(update_ttl) / 1 persist / 2 replace without ttl / 3 replace with long ttl / 4 leave / 5 short ttl again)
+    pub actions: Vec<Vec<(u8, u8)>>,
+    pub schedule: Schedule,
+}
+
+pub fn sweep_program_strategy() -> BoxedStrategy<SweepProgram> {
+    (any::<bool>(), prop_oneof![Just(1u8), Just(3u8), Just(20u8), Just(100u8)], 3u8..20, 1u8..4, sched::schedule_strategy())
+        .prop_flat_map(|(persistent, sample_size, keys_per_writer, writers, schedule)| {
+            (Just(persistent), Just(sample_size), Just(keys_per_writer), Just(writers), proptest::collection::vec(proptest::collection::vec((any::<u8>(), 0u8..6), 10..80), writers as usize), Just(schedule))
+        })
+        .prop_map(|(persistent, sample_size, keys_per_writer, writers, actions, schedule)| SweepProgram { persistent, sample_size, keys_per_writer, writers, actions, schedule })
+        .boxed()
+}
+
+pub struct SweepOutcome {
+    pub failure: Option<(String, String)>,
+    pub swept: u64,
+    pub renewals_ok: u64,
+    pub renewals_too_late: u64,
+    pub reads: u64,
+}
+
+pub fn run_sweep_program(p: &SweepProgram) -> SweepOutcome {
+    use std::sync::atomic::AtomicU8;
+    const T: u64 = 1_800_000_000_000_000_000;
+    const SEC: u64 = 1_000_000_000;
+    feoxdb::verif::set_thread_clock(None);
+    feoxdb::verif::set_global_clock(Some(T));
+    let mut cfg = conc_config(p.persistent, false, true, 400);
+    cfg.ttl = true;
+    let path = p.persistent.then(|| env::fresh_path("sweep"));
+    let store = match seq::open_store(&cfg, path.as_deref()) {
+        Ok(s) => Arc::new(s),
+        Err(e) => {
+            feoxdb::verif::set_global_clock(None);
+            return SweepOutcome { failure: Some(("open-failed".into(), format!("{e:?}"))), swept: 0, renewals_ok: 0, renewals_too_late: 0, reads: 0 };
+        }
+    };
+    let nk = p.keys_per_writer as usize;
+    let nw = p.writers as usize;
+    let key = |w: usize, k: usize| format!("sw-{w}-{k:02}").into_bytes();
+    let val = |w: usize, k: usize, g: u32| {
+        let mut v = vec![0u8; 30 + k];
+        seq::stamp_fill(&mut v, (w * 100 + k) as u16, g);
+        v
+    };
+    // phase 1: every key gets a 1 s TTL at time T
+    for w in 0..nw {
+        for k in 0..nk {
+            let _ = store.insert_with_ttl(&key(w, k), &val(w, k, 1), 1);
+        }
+    }
+    if p.persistent {
+        let _ = store.flush();
+    }
+    // must_stay[w][k]: 0 unknown, 1 = a renewal/replacement completed: the key must be readable from now on
+    let must_stay: Arc<Vec<AtomicU8>> = Arc::new((0..nw * nk).map(|_| AtomicU8::new(0)).collect());
+    let gens: Arc<Vec<AtomicU64>> = Arc::new((0..nw * nk).map(|_| AtomicU64::new(1)).collect());
+    // phase 2: time jumps past the expiry; the sweeper starts; writers race it
+    feoxdb::verif::set_global_clock(Some(T + 2 * SEC));
+    let ctl = Controller::new(p.schedule.clone());
+    sched::install(Some(ctl.clone()));
+    store.start_ttl_sweeper(Some(feoxdb::core::ttl_sweep::TtlConfig { sample_size: p.sample_size as usize, expiry_threshold: 0.0, max_iterations: 16, max_time_per_run: std::time::Duration::from_millis(2), sleep_interval: std::time::Duration::from_millis(1), enabled: true }));
+    let barrier = Arc::new(Barrier::new(nw + 1));
+    let done = Arc::new(AtomicBool::new(false));
+    let ok = Arc::new(AtomicU64::new(0));
+    let late = Arc::new(AtomicU64::new(0));
+    let mut hs = Vec::new();
+    for w in 0..nw {
+        let (store, barrier, must_stay, gens, ok, late) = (store.clone(), barrier.clone(), must_stay.clone(), gens.clone(), ok.clone(), late.clone());
+        let actions = p.actions[w].clone();
+        hs.push(std::thread::spawn(move || {
+            let mut err: Option<(String, String)> = None;
+            barrier.wait();
+            for (kx, a) in &actions {
+                let k = (*kx as usize * nk) >> 8;
+                let slot = w * nk + k;
+                let kb = key(w, k);
+                let _g = env::watch("sweep writer call");
+                let g = gens[slot].load(Ordering::SeqCst) as u32;
+                match a {
+                    0 | 1 => {
+                        // TTL-only renewal: succeeds only if the generation is still unexpired
+                        let r = if *a == 0 { store.update_ttl(&kb, 3600) } else { store.persist(&kb) };
+                        match r {
+                            Ok(()) => {
+                                if must_stay[slot].load(Ordering::SeqCst) == 0 {
+                                    err = err.or(Some(("renewed-an-expired-key".into(), format!("update_ttl/persist succeeded on {} although its only generation had expired 1 s earlier", String::from_utf8_lossy(&kb)))));
+                                }
+                                ok.fetch_add(1, Ordering::Relaxed);
+                            }
+                            Err(feoxdb::FeoxError::KeyNotFound) => {
+                                if must_stay[slot].load(Ordering::SeqCst) == 1 {
+                                    err = err.or(Some(("unexpired-key-missing".into(), format!("update_ttl/persist on {} returned KeyNotFound although its latest generation is unexpired", String::from_utf8_lossy(&kb)))));
+                                }
+                                late.fetch_add(1, Ordering::Relaxed);
+                            }
+                            Err(e) => err = err.or(Some(("unexpected-error".into(), format!("{e:?}")))),
+                        }
+                    }
+                    2 | 3 => {
+                        let v = val(w, k, g + 1);
+                        // mark the transition before the call: a reader must never see "expired only"
+                        // on both sides of a read that overlapped this replacement
+                        let prev = must_stay[slot].swap(2, Ordering::SeqCst);
+                        let r = if *a == 2 { store.insert(&kb, &v).map(|_| ()) } else { store.insert_with_ttl(&kb, &v, 3600).map(|_| ()) };
+                        if r.is_ok() {
+                            gens[slot].store(g as u64 + 1, Ordering::SeqCst);
+                            must_stay[slot].store(1, Ordering::SeqCst);
+                        } else {
+                            must_stay[slot].store(prev, Ordering::SeqCst);
+                            // a replacement racing the sweeper's removal of the expired generation may
+                            // be refused conservatively (the removal acts as a delete at the sweeper's now)
+                            if !(matches!(r, Err(feoxdb::FeoxError::OlderTimestamp)) && prev != 1) {
+                                err = err.or(Some(("unexpected-error".into(), format!("replace failed: {r:?}"))));
+                            }
+                        }
+                    }
+                    5 => {
+                        // short TTL again, already expired at the current time: the key may vanish again
+                        let prev = must_stay[slot].swap(2, Ordering::SeqCst); // 2 = in transition
+                        let v = val(w, k, g + 1);
+                        // automatic timestamp (= the frozen virtual now), TTL 0 is "no expiry", so use
+                        // an explicit expiry in the past through a 1 s TTL on a timestamp 3 s back
+                        // only when the key is absent or older; otherwise the call is refused
+                        let now = store.get_timestamp_pub();
+                        match store.insert_with_ttl_and_timestamp(&kb, &v, 1, Some(now - 3 * SEC + (g as u64 + 2))) {
+                            Ok(_) => {
+                                gens[slot].store(g as u64 + 1, Ordering::SeqCst);
+                                must_stay[slot].store(0, Ordering::SeqCst);
+                            }
+                            Err(_) => must_stay[slot].store(prev, Ordering::SeqCst),
+                        }
+                    }
+                    _ => {}
+                }
+            }
+            err
+        }));
+    }
+    // reader: keys that must stay are always readable with their current generation
+    let reader = {
+        let (store, barrier, must_stay, gens, done) = (store.clone(), barrier.clone(), must_stay.clone(), gens.clone(), done.clone());
+        std::thread::spawn(move || {
+            let mut err: Option<(String, String)> = None;
+            let mut reads = 0u64;
+            barrier.wait();
+            while !done.load(Ordering::Acquire) && err.is_none() {
+                for w in 0..nw {
+                    for k in 0..nk {
+                        let slot = w * nk + k;
+                        let kb = key(w, k);
+                        let stay_before = must_stay[slot].load(Ordering::SeqCst);
+                        let g0 = gens[slot].load(Ordering::SeqCst);
+                        let r = store.get(&kb);
+                        let g1 = gens[slot].load(Ordering::SeqCst);
+                        let stay_after = must_stay[slot].load(Ordering::SeqCst);
+                        reads += 1;
+                        match r {
+                            Ok(v) => {
+                                if stay_before == 0 && stay_after == 0 && g0 == g1 {
+                                    // the only generation is expired (expiry T+1s or earlier, now >= T+2s)
+                                    err = Some(("expired-value-returned".into(), format!("get({}) returned a value whose expiry instant passed at least 1 s of virtual time ago", String::from_utf8_lossy(&kb))));
+                                }
+                                if let Ok((_, gen)) = seq::stamp_check(&v) {
+                                    if (gen as u64) < g0.saturating_sub(0) && g0 == g1 && (gen as u64) != g0 {
+                                        err = err.or(Some(("older-generation-returned".into(), format!("get({}) returned generation {gen} while the current one is {g0}", String::from_utf8_lossy(&kb)))));
+                                    }
+                                } else {
+                                    err = err.or(Some(("foreign-bytes".into(), format!("get({}) returned bytes that are no complete generation", String::from_utf8_lossy(&kb)))));
+                                }
+                            }
+                            Err(feoxdb::FeoxError::KeyNotFound) => {
+                                if stay_before == 1 && stay_after == 1 {
+                                    err = Some(("unexpired-key-missing".into(), format!("get({}) returned KeyNotFound although a renewal/replacement with an unexpired (or no) expiry had completed before the read began", String::from_utf8_lossy(&kb))));
+                                }
+                            }
+                            Err(feoxdb::FeoxError::StaleExtent) => {}
+                            Err(e) => err = Some(("read-error".into(), format!("{e:?}"))),
+                        }
+                    }
+                }
+            }
+            (err, reads)
+        })
+    };
+    let mut failure = None;
+    for h in hs {
+        match h.join() {
+            Ok(Some(e)) => {
+                failure.get_or_insert(e);
+            }
+            Ok(None) => {}
+            Err(_) => {
+                failure.get_or_insert(("writer-panicked".into(), "a writer thread panicked".into()));
+            }
+        }
+    }
+    // let the sweeper run a little longer over the final state
+    std::thread::sleep(std::time::Duration::from_millis(8));
+    done.store(true, Ordering::Release);
+    let mut reads = 0;
+    if let Ok((e, r)) = reader.join() {
+        reads = r;
+        if let Some(e) = e {
+            failure.get_or_insert(e);
+        }
+    }
+    sched::install(None);
+    // final: every key that must stay is present with its current generation; len() == readable keys
+    if failure.is_none() {
+        for w in 0..nw {
+            for k in 0..nk {
+                let slot = w * nk + k;
+                if must_stay[slot].load(Ordering::SeqCst) == 1 {
+                    match store.get(&key(w, k)) {
+                        Ok(v) if seq::stamp_check(&v).is_ok_and(|(_, g)| g as u64 == gens[slot].load(Ordering::SeqCst)) => {}
+                        other => {
+                            failure = Some(("unexpired-key-missing".into(), format!("at the end {} should hold generation {} but get returned {:?}", String::from_utf8_lossy(&key(w, k)), gens[slot].load(Ordering::SeqCst), other.map(|v| v.len()))));
+                        }
+                    }
+                }
+            }
+        }
+    }
+    let swept = store.stats().ttl_expired_active;
+    let out = SweepOutcome { failure, swept, renewals_ok: ok.load(Ordering::Relaxed), renewals_too_late: late.load(Ordering::Relaxed), reads };
+    env::reap(store, path);
+    // the reaper drops the store (and stops the sweeper) on another thread; the global clock stays
+    // set until the next program installs its own
+    out
+}
